@@ -1,0 +1,20 @@
+//go:build verif
+
+// Contracts for the deductive verification of the prober's flag validation (comment-only; build tag verif). Property C18.
+
+package main
+
+//@ autotagfn nopanic validateFlags C18
+//@ autotagfn reach validateFlags C18
+//@ globalinv qps != nil && numRows != nil && payloadSize != nil && project != nil && opsProject != nil && instance_name != nil && database_name != nil && instanceConfig != nil && probeType != nil
+
+//@ spec probeTypeOK(t string) := t == "noop" || t == "stale_read" || t == "strong_query" || t == "stale_query" || t == "dml" || t == "read_write"
+//@ func validateFlags
+//@   ensures [C18.flags-qps] len(result) == 0 ==> deref(qps) >= 0.000000001 && deref(qps) <= 1000.0
+//@   ensures [C18.flags-sizes] len(result) == 0 ==> deref(numRows) > 0 && deref(payloadSize) > 0
+//@   ensures [C18.flags-noslash-project] len(result) == 0 ==> !contains(deref(project), "/")
+//@   ensures [C18.flags-noslash-ops] len(result) == 0 ==> !contains(deref(opsProject), "/")
+//@   ensures [C18.flags-noslash-instance] len(result) == 0 ==> !contains(deref(instance_name), "/")
+//@   ensures [C18.flags-noslash-database] len(result) == 0 ==> !contains(deref(database_name), "/")
+//@   ensures [C18.flags-noslash-config] len(result) == 0 ==> !contains(deref(instanceConfig), "/")
+//@   ensures [C18.flags-probe-type] len(result) == 0 ==> probeTypeOK(deref(probeType))
